@@ -137,6 +137,13 @@ def run(ck):
     ins = put.calls(rx(r'unordered_map<.*ChunkRecord.*::insert_or_assign$'))
     ck.ob('C01.put', 'C01.put/insert_or_assign', len(ins) == 1 and not put.calls(rx(r'unordered_map<.*::(emplace|try_emplace|insert)$')),
           put.loc(), 'put replaces the whole record with insert_or_assign (bytes and deadline together)')
+    # every normal return of put has performed the replacement (no early exit keeps an old record or deadline)
+    if len(ins) == 1:
+        from sa.paths import Cfg
+        cfgp = Cfg.of(put)
+        wit = cfgp.must_pass_from((cfgp.entry, -1), lambda e: e == ins[0] or put.is_in(ins[0], e) and put.nodes[e]['k'] in ('ExprWithCleanups',))
+        ck.ob('C01.put', 'C01.put/always-replaces', wit is None, put.loc(),
+              'every path through put reaches the insert_or_assign: an overwrite always replaces bytes and deadline', wit)
     pidx = {p['n']: p['d'] for p in put.params}
     want = {'data': 'data', 'nonce': 'nonce', 'encrypted': 'encrypted'}
     assigns = {}
